@@ -75,17 +75,21 @@ static int do_point_col(ezc3d::c3d& c, int dFrames, int names, bool empty) {   /
   else if (names == 1) nm.push_back(pl.size() ? pl[0] : std::string("newp"));
   else if (names == 2) { nm.push_back("newp"); nm.push_back(pl.size() ? pl[0] : std::string("newq")); }
   else if (names == 4) nm.push_back(pl.size() ? pl.back() : std::string("newp"));
+  else if (names == 5) nm.push_back("newp");
   else { nm.push_back("newp"); nm.push_back("newq"); }
   for (long f = 0; f < n; ++f) {
     Frame fr; Points pts;
     for (size_t k = 0; k < nm.size(); ++k) { Point p; p.name(nm[k]); p.x(__vp_sym_f32("cx")); p.y(__vp_sym_f32("cy")); p.z(__vp_sym_f32("cz")); p.residual(__vp_sym_f32("cr")); pts.point(p); }
     fr.add(pts); v.push_back(fr);
   }
+  if (names == 5 && v.size() > 1) {   // ragged the other way: a later frame carries one point more than the first
+    Point p; p.name("stray"); p.x(__vp_sym_f32("cx")); v.back().points_nonConst().point(p);
+  }
   if (names == 3 && v.size()) {   // ragged: the last frame lacks the second new point
     Points pts; pts.point(v.back().points().point(0)); v.back().add(pts);
   }
   bool exists = false; for (size_t k = 0; k < nm.size(); ++k) for (size_t i = 0; i < pl.size(); ++i) if (nm[k] == pl[i]) exists = true;
-  __vp_obs_u64("arg.ragged", names == 3 && v.size());
+  __vp_obs_u64("arg.ragged", (names == 3 && v.size()) || (names == 5 && v.size() > 1));
   __vp_obs_u64("call.kind", 1); __vp_obs_u64("arg.nbFrames", v.size()); __vp_obs_u64("arg.nbNames", v.size() ? nm.size() : 0); __vp_obs_u64("arg.nameExists", exists);
   try { c.point(v); } catch (...) { return classify(); }
   return 0;
@@ -99,17 +103,21 @@ static int do_channel_col(ezc3d::c3d& c, int dFrames, int dSub, int names, bool 
   else if (names == 1) nm.push_back(al.size() ? al[0] : std::string("newa"));
   else if (names == 2) { nm.push_back("newa"); nm.push_back(al.size() ? al[0] : std::string("newb")); }
   else if (names == 4) nm.push_back(al.size() ? al.back() : std::string("newa"));
+  else if (names == 5) nm.push_back("newa");
   else { nm.push_back("newa"); nm.push_back("newb"); }
   for (long f = 0; f < n; ++f) {
     Frame fr; Analogs ana;
     for (long s = 0; s < ns; ++s) { SubFrame sf; for (size_t k = 0; k < nm.size(); ++k) { Channel ch; ch.name(nm[k]); ch.data(__vp_sym_f32("ca")); sf.channel(ch); } ana.subframe(sf); }
     fr.add(ana); v.push_back(fr);
   }
+  if (names == 5 && v.size() > 1 && ns > 0) {   // a later frame carries one channel more in its last sub-frame
+    Channel ch; ch.name("stray"); ch.data(__vp_sym_f32("ca")); v.back().analogs_nonConst().subframe_nonConst(ns - 1).channel(ch);
+  }
   if (names == 3 && v.size() && ns > 0) {   // ragged: the last sub-frame of the last frame lacks the second new channel
     SubFrame sf; sf.channel(v.back().analogs().subframe(ns - 1).channel(0)); v.back().analogs_nonConst().subframe(sf, ns - 1);
   }
   bool exists = false; for (size_t k = 0; k < nm.size(); ++k) for (size_t i = 0; i < al.size(); ++i) if (nm[k] == al[i]) exists = true;
-  __vp_obs_u64("arg.ragged", names == 3 && v.size() && ns > 0);
+  __vp_obs_u64("arg.ragged", (names == 3 && v.size() && ns > 0) || (names == 5 && v.size() > 1 && ns > 0));
   __vp_obs_u64("call.kind", 2); __vp_obs_u64("arg.nbFrames", v.size()); __vp_obs_u64("arg.nbSubframes", v.size() ? ns : 0); __vp_obs_u64("arg.nbNames", (v.size() && ns) ? nm.size() : 0); __vp_obs_u64("arg.nameExists", exists);
   try { c.analog(v); } catch (...) { return classify(); }
   return 0;
@@ -149,7 +157,7 @@ static int do_declare(ezc3d::c3d& c, bool point, int variant) {   // 0 fresh, 1 
   return 0;
 }
 
-enum { NOPS = 54 };
+enum { NOPS = 56 };
 static int apply(ezc3d::c3d*& c, unsigned op) {
   Dev d;
   switch (op) {
@@ -206,6 +214,8 @@ static int apply(ezc3d::c3d*& c, unsigned op) {
     case 51: return do_point_col(*c, 0, 4, false);
     case 52: return do_channel_col(*c, 1, 0, 0, false);
     case 53: return do_channel_col(*c, 0, 0, 4, false);
+    case 54: return do_point_col(*c, 0, 5, false);
+    case 55: return do_channel_col(*c, 0, 0, 5, false);
     case 43: {   // save and reload
       __vp_obs_u64("call.kind", 8);
       try { c->write("hist.c3d"); ezc3d::c3d* n = new ezc3d::c3d("hist.c3d"); delete c; c = n; } catch (...) { return classify(); }
@@ -241,6 +251,12 @@ extern "C" int h_hist() {
   }
   // the object must still be usable: print, save, reload (C10, C13)
   const int finish = __vp_cfg("finish");   // 1: always, 2: only when the last call was refused
+  if (finish == 3) {
+    dump_all(*c, "pre", false);
+    c->write("final.c3d");
+    ezc3d::c3d r("final.c3d");
+    dump_all(r, "post", false);
+  }
   if (finish == 1 || (finish == 2 && out != 0)) {
     c->print();
     try { c->write("final.c3d"); ezc3d::c3d r("final.c3d"); __vp_tag("final"); __vp_obs_u64("final.reload", 1); }
